@@ -366,6 +366,8 @@ class EPoll(BasePoller):
             self._map[fileno] = fd
         else:
             super().discard(fd)
+            for key in [k for k, v in self._map.items() if v == fd]:
+                del self._map[key]
 
     def addReader(self, source, fd):
         super().addReader(source, fd)
